@@ -558,7 +558,7 @@ def destbuf_tie(ctx, drv, fl, names, outs):
         if nm.startswith("xf_filt_") and nm in XF and XF[nm][4] != 1:
             n, fail, later, icc, buf = XF[nm]
             m = "L" if buf == 0 else "C"
-            g = 2 if icc else (1 if buf == 2 else 0)
+            g = 2 if icc else 0      # without the ICC profile nothing is written before the filter runs
             toks = []
             for t in range(n):
                 if t == fail:
@@ -582,8 +582,8 @@ def destbuf_tie(ctx, drv, fl, names, outs):
         mm = re.match(r"destbuf leak=(\d+) badfree=(\d+) stolen=(\d+)", mo)
         if not m or not mm:
             continue
-        impl = (int(m.group(7)) > 0, int(m.group(10)) + int(m.group(13)) > 0, int(m.group(12)) > 0)
-        mod = (int(mm.group(1)) > 0, int(mm.group(2)) > 0, int(mm.group(3)) > 0)
+        impl = (int(m.group(7)) > 0, int(m.group(10)) + int(m.group(13)) + int(m.group(12)) > 0, int(m.group(12)) > 0)
+        mod = (int(mm.group(1)) > 0, int(mm.group(2)) + int(mm.group(3)) > 0, int(mm.group(3)) > 0)
         ctx.cov["traces_validated_against_impl"] += 1
         if impl != mod:
             bad += 1
